@@ -237,46 +237,112 @@ func ruleDispatcherExit(c *chk.Ctx) {
 			return
 		}
 		n++
-		emptyKnown := false
-		for _, cd := range ir.CondsAt(r.Block()) {
-			if call, ok := cd.V.(*ssa.Call); ok && cd.Truth {
-				if g := call.Call.StaticCallee(); g != nil && ir.BaseName(g) == "IsEmpty" && chk.IsField(call.Call.Args[0], c.M.SInq) {
-					emptyKnown = true
-				}
-			}
-		}
-		// "stopped" must have been established under the lock on this path: a dominating
-		// `channel == nil` outcome whose test ran with the lock held, with no re-acquisition of
-		// the lock between the test and the return (releasing it before returning is fine)
-		stopped := false
 		lock := ownerLock(c, "server")
-		for _, cd := range ir.CondsAt(r.Block()) {
-			x, eq, ok := ir.NilCompare(cd.V)
-			if !ok || !chk.LoadsField(x, c.M.SCh) || eq != cd.Truth || cd.If == nil {
-				continue
+		isLock := func(i2 ssa.Instruction) bool {
+			ci, ok := i2.(ssa.CallInstruction)
+			if !ok {
+				return false
 			}
-			st := c.F.At(cd.If)
-			if !st.Has(facts.Held, lock) {
-				continue
+			if _, isDefer := i2.(*ssa.Defer); isDefer {
+				return false
 			}
-			relock := false
-			for _, i2 := range between(cd.If, r) {
-				if ci, ok := i2.(ssa.CallInstruction); ok {
-					if op, lp, ok := facts.IsMutexOp(ci.Common()); ok && op == "lock" && lp == lock {
-						if _, isDefer := i2.(*ssa.Defer); !isDefer {
-							relock = true
-						}
+			op, lp, ok := facts.IsMutexOp(ci.Common())
+			return ok && op == "lock" && lp == lock
+		}
+		emptyAll, stoppedAll := true, true
+		alts := expandPredicateHelpersKeep(c, ir.CondsAt(r.Block()), 0, func(cd ir.Cond) bool {
+			call, ok := cd.V.(*ssa.Call)
+			if !ok {
+				return false
+			}
+			g := call.Call.StaticCallee()
+			return g != nil && ir.BaseName(g) == "IsEmpty"
+		})
+		for _, alt := range alts {
+			emptyKnown := false
+			for _, cd := range alt {
+				if call, ok := cd.V.(*ssa.Call); ok && cd.Truth {
+					if g := call.Call.StaticCallee(); g != nil && ir.BaseName(g) == "IsEmpty" && chk.IsField(call.Call.Args[0], c.M.SInq) {
+						emptyKnown = true
 					}
 				}
 			}
-			if !relock {
-				stopped = true
+			// "stopped" must have been established under the lock on this path: a
+			// `channel == nil` outcome whose test ran with the lock held, with no re-acquisition of
+			// the lock between the test and the return (releasing it before returning is fine)
+			stopped := false
+			for _, cd := range alt {
+				x, eq, ok := ir.NilCompare(cd.V)
+				if !ok || !chk.LoadsField(x, c.M.SCh) || eq != cd.Truth || cd.If == nil {
+					continue
+				}
+				st := c.F.At(cd.If)
+				if !st.Has(facts.Held, lock) {
+					continue
+				}
+				relock := false
+				if cd.If.Parent() == f {
+					for _, i2 := range between(cd.If, r) {
+						if isLock(i2) {
+							relock = true
+						}
+					}
+				} else {
+					// the test sits in a predicate helper: no re-acquisition from the outcome's edge
+					// to the helper's exit, nor from the helper call to the return
+					succ := succOfCond(cd)
+					if succ == nil || len(succ.Instrs) == 0 {
+						relock = true
+					} else if isLock(succ.Instrs[0]) {
+						relock = true
+					} else if hit, _ := ir.Reaches(succ.Instrs[0], isLock, func(i2 ssa.Instruction) bool { _, isRet := i2.(*ssa.Return); return isRet }); hit {
+						relock = true
+					}
+					for _, a := range anchorsIn(c, cd.If, f) {
+						for _, i2 := range between(a, r) {
+							if isLock(i2) {
+								relock = true
+							}
+						}
+					}
+				}
+				if !relock {
+					stopped = true
+				}
+			}
+			if !emptyKnown {
+				emptyAll = false
+			}
+			if !stopped {
+				stoppedAll = false
 			}
 		}
-		ok2 := emptyKnown && stopped
-		c.Check(ok2, "RUN.drain", f, "dispatcher exit", r.Pos(), "the dispatcher returns without work only when stopped ∧ queue empty", fmt.Sprintf("the dispatcher can exit with stopped=%v, queue-empty-known=%v: queued notifications would never be dispatched and WaitStatus would find the queue non-empty", stopped, emptyKnown))
+		ok2 := emptyAll && stoppedAll && len(alts) > 0
+		c.Check(ok2, "RUN.drain", f, "dispatcher exit", r.Pos(), "the dispatcher returns without work only when stopped ∧ queue empty", fmt.Sprintf("the dispatcher can exit with stopped=%v, queue-empty-known=%v: queued notifications would never be dispatched and WaitStatus would find the queue non-empty", stoppedAll, emptyAll))
 	})
 	if n == 0 {
 		c.Undecided("RUN.drain", f, "dispatcher exit", f.Pos(), "no give-up return found in the dispatcher")
 	}
+}
+
+
+// succOfCond returns the successor of the If behind outcome cd that is taken
+// when cd holds.
+func succOfCond(cd ir.Cond) *ssa.BasicBlock {
+	if cd.If == nil {
+		return nil
+	}
+	b := cd.If.Block()
+	for _, s := range b.Succs {
+		own, ok := ir.EdgeOwnCond(b, s)
+		if !ok {
+			continue
+		}
+		for _, n := range ir.NormConds([]ir.Cond{own}) {
+			if n.V == cd.V && n.Truth == cd.Truth {
+				return s
+			}
+		}
+	}
+	return nil
 }
